@@ -7,6 +7,7 @@
 package lifecycle
 
 import (
+	"runtime/debug"
 	"context"
 	"fmt"
 	"sort"
@@ -40,8 +41,8 @@ func (c10) Classes() []sim.Class {
 			q, th = 800, 40000
 		}
 		cs = append(cs,
-			sim.Class{Name: "registry", Engine: e, Quick: q, Thorough: th, Instrumented: true, RunTimeoutSec: 120},
-			sim.Class{Name: "compiled-handles", Engine: e, Quick: q / 4, Thorough: th / 4, Instrumented: true, RunTimeoutSec: 120},
+			sim.Class{Name: "registry", Engine: e, Quick: q, Thorough: th, Instrumented: true, RunTimeoutSec: 120, DeathIsViolation: true},
+			sim.Class{Name: "compiled-handles", Engine: e, Quick: q / 4, Thorough: th / 4, Instrumented: true, RunTimeoutSec: 120, DeathIsViolation: true},
 			sim.Class{Name: "context-close", Engine: e, Quick: 150, Thorough: 6000, Instrumented: true, RunTimeoutSec: 120},
 			// sequential: hundreds of names (map and list resizing); files released exactly once on close
 			sim.Class{Name: "registry-large", Engine: e, Quick: 40, Thorough: 1500, Instrumented: true, RunTimeoutSec: 120},
@@ -316,6 +317,34 @@ func relax(h []histOp) []histOp {
 	return out
 }
 
+// shortStack: the wazero frames of the current (panicking) goroutine's stack, innermost first.
+func shortStack() string {
+	var out []string
+	for _, ln := range strings.Split(string(debug.Stack()), "\n") {
+		if strings.Contains(ln, "github.com/tetratelabs/wazero") && strings.Contains(ln, ".go:") {
+			ln = strings.TrimSpace(ln)
+			if i := strings.LastIndex(ln, "/"); i >= 0 {
+				ln = ln[i+1:]
+			}
+			if j := strings.Index(ln, " "); j >= 0 {
+				ln = ln[:j]
+			}
+			out = append(out, ln)
+		}
+		if len(out) >= 6 {
+			break
+		}
+	}
+	return strings.Join(out, " < ")
+}
+
+type nopListener struct{}
+
+func (nopListener) Before(context.Context, api.Module, api.FunctionDefinition, []uint64, experimental.StackIterator) {
+}
+func (nopListener) After(context.Context, api.Module, api.FunctionDefinition, []uint64) {}
+func (nopListener) Abort(context.Context, api.Module, api.FunctionDefinition, error)    {}
+
 // ---- the run
 
 var (
@@ -586,6 +615,9 @@ func (c10) Run(t *tape.Tape, cfg sim.Config) (res sim.Result) {
 		shared[i] = cm
 	}
 	withHandles := cfg.Class == "compiled-handles"
+	lctx := experimental.WithFunctionListenerFactory(ctx, experimental.FunctionListenerFactoryFunc(func(api.FunctionDefinition) experimental.FunctionListener {
+		return nopListener{}
+	}))
 	names := []string{"", "a", "b"}
 	nclients := t.Range(2, 4)
 	plans := make([][]planOp, nclients)
@@ -705,7 +737,7 @@ func (c10) Run(t *tape.Tape, cfg sim.Config) (res sim.Result) {
 		func() {
 			defer func() {
 				if r := recover(); r != nil {
-					panics = append(panics, fmt.Sprintf("client %d %s(%q) panicked: %v", c, opNames[p.kind], p.name, r))
+					panics = append(panics, fmt.Sprintf("client %d %s(%q) panicked: %v [%s]", c, opNames[p.kind], p.name, r, shortStack()))
 					out.Err = fmt.Sprint("panic: ", r)
 				}
 			}()
@@ -784,11 +816,28 @@ func (c10) Run(t *tape.Tape, cfg sim.Config) (res sim.Result) {
 					out.Err = err.Error()
 				}
 			case opCompile:
-				cm, err := rt.CompileModule(ctx, bins[p.bin])
+				cctx := ctx
+				if withHandles {
+					// with a listener factory (every client the same selection: the compilations share one
+					// engine entry), and the fresh handle is used at once: instantiate anonymously, call
+					cctx = lctx
+				}
+				cm, err := rt.CompileModule(cctx, bins[p.bin])
 				if err == nil {
 					out.OK = true
 					cs.compiled = append(cs.compiled, cm)
 					cs.cbin = append(cs.cbin, p.bin)
+					if withHandles {
+						if m, ierr := rt.InstantiateModule(cctx, cm, wazero.NewModuleConfig().WithName("")); ierr == nil {
+							fn := []string{"one", "two", "three"}[p.bin]
+							if r, cerr := m.ExportedFunction(fn).Call(cctx); cerr == nil && r[0] != uint64(p.bin+1) {
+								res.Fail("wrong-result", "client %d: %s() of a freshly compiled and instantiated module returned %d", c, fn, r[0])
+							} else if cerr != nil && (strings.Contains(cerr.Error(), "runtime error") || strings.Contains(cerr.Error(), "nil pointer")) {
+								panics = append(panics, fmt.Sprintf("client %d: calling %s() of a freshly compiled and instantiated module failed internally: %v", c, fn, strings.SplitN(cerr.Error(), "\n", 2)[0]))
+							}
+							m.Close(cctx)
+						}
+					}
 				} else {
 					out.Err = err.Error()
 				}
